@@ -346,6 +346,34 @@ def decide(pid: str, tier: str, seed: int, verbose=False, only_units=None) -> in
         json.dump(led, open(lpath, "w"), indent=0, sort_keys=True)
     ptypes_cache = {}
     cf = None
+    # units that left the verified subset (new loop without invariant, unsupported construct, stale sidecar): no proof
+    # is possible, so the verdict is UNDECIDED (exit 2) -- unless the bounded stand-in (run-time contract on scenario /
+    # boundary inputs, against the real code) exhibits a concrete violation, which is then reported with its replay
+    bounded_standins = []
+    for item in outside_subset:
+        u = item["unit"]
+        if u in reg.lemmas or item["status"] == "missing":
+            continue
+        if cf is None:
+            cf = class_fields(reg, repo)
+        types = ptypes_cache.setdefault(u, param_types_of(reg, repo, u))
+        c = contract_of(reg, u)
+        if not types or c is None:
+            continue
+        seeds = [json.loads(json.dumps({k: v for k, v in w.items() if k != "$instance"}, default=_enc))
+                 for w in c.witness if not (isinstance(w, dict) and "$instance" in w and w["$instance"] != _split_unit(u)[1])]
+        n = 600 if tier == "quick" else 6000
+        fake = {"oid": f"{u}::bounded-standin", "clause": "bounded-standin", "site": item["status"], "line": 0,
+                "note": "unit outside the verified subset: " + item["detail"][:200], "status": "", "reason": "", "backend": ""}
+        spath = write_replay(u, dict(fake, oid=fake["oid"] + "#search"),
+                             search={"n": n, "seed": seed, "types": types, "classes": cf, "seeds": seeds})
+        rr = run_replay(spath, timeout=180 if tier == "quick" else 900)
+        bounded_standins.append({"unit": u, "why": item["status"], "inputs_tried": rr.get("tried"),
+                                 "result": rr.get("status"), "labelled": "bounded, not counted as proved"})
+        if rr.get("status") == "violation":
+            rpath = write_replay(u, fake, inputs=rr["inputs"], extra={"found_by": rr.get("found_by", "bounded search"),
+                                                                      "result": rr})
+            violations.append((u, dict(fake, note=f"{rr.get('kind')}: {str(rr.get('clause') or rr.get('detail'))[:160]}"), rpath, ""))
     for u, ob in failing:
         kfs_here = [k for k in open_known if k.get("unit") == u and k.get("oid") == ob["oid"]]
         regions = [k["region"] for k in kfs_here if k.get("region")]
@@ -469,7 +497,7 @@ def decide(pid: str, tier: str, seed: int, verbose=False, only_units=None) -> in
             "witness_replays": witness_runs,
             "known_findings": known_lines,
             "not_decided": pinfo.get("not_decided", []),
-            "bounded_standins": pinfo.get("bounded_standins", []),
+            "bounded_standins": pinfo.get("bounded_standins", []) + bounded_standins,
         },
         "assumptions": pinfo.get("assumptions", []) + assumptions,
         "wall_s": round(wall, 2),
